@@ -226,6 +226,9 @@ class _exponential(_Potential_Function_Base):
     :param n: Potentials' B parameter
 
     :return: Derivative of `exponential` at `r`"""
+    if n == 0:
+      # a constant: avoid evaluating 0*r**-1, which is undefined at r = 0
+      return 0.0
     return A*n*r**(n-1)
 
   def deriv2(self, r, A,n):
@@ -236,6 +239,9 @@ class _exponential(_Potential_Function_Base):
     :param n: Potentials' B parameter
 
     :return: 2nd derivative of `exponential` at `r`"""
+    if n == 0 or n == 1:
+      # constant or linear: avoid evaluating 0*r**-2 or 0*r**-1, which are undefined at r = 0
+      return 0.0
     return A*n*(n-1)*r**(n-2) 
 
 exponential = _exponential()
